@@ -258,6 +258,13 @@ def _request(pool, script, name, out):
             data = r.read()
             r.release_conn()
             out[name] = ("ok", r.status, data)
+        elif script == 4:
+            # the connection goes back to the pool inside urlopen (release_conn=True) although the body is still unread
+            # (preload_content=False): the response must not hand the same connection back a second time
+            r = pool.urlopen("GET", "/%s" % name, retries=False, preload_content=False, release_conn=True, pool_timeout=None)
+            data = r.read()
+            r.release_conn()
+            out[name] = ("ok", r.status, data)
         else:
             try:
                 r = pool.urlopen("GET", "/%s" % name, retries=Retry(total=0, status_forcelist=[503]), preload_content=False,
@@ -366,7 +373,10 @@ def _schedule(maxsize, block, script, other, w1, x1, w2):
                 e = o[1]
                 if other not in ("close", "request+close") and isinstance(e, ClosedPoolError):
                     return _fail("ClosedPoolError without a close()")
-                if other not in ("close", "request+close") and not (script in (1, 3) or isinstance(e, EmptyPoolError)):
+                early_release = script == 4 and isinstance(e, HTTPError) and "ResponseNotReady" in repr(e)
+                # (script 4 puts a connection with an unread response back: another thread that picks it up is refused by
+                #  http.client's ResponseNotReady guard — the documented price of release_conn=True without preloading)
+                if other not in ("close", "request+close") and not (script in (1, 3) or isinstance(e, EmptyPoolError) or early_release):
                     return _fail("thread %s failed with %r although nothing went wrong" % (name, e))
         if peer.users:
             return _fail("one connection carried two threads' requests at the same time: %r" % (peer.users,))
@@ -380,6 +390,9 @@ def _schedule(maxsize, block, script, other, w1, x1, w2):
                 return _fail("schedule (%d,%d,%d): %d of %d slots left in the pool after both requests ended" % (w1, x1, w2, n, maxsize))
             if not block and n > maxsize:
                 return _fail("more than maxsize entries in the queue")
+            conns = [c for c in list(q.queue) if c is not None]
+            if len(set(id(c) for c in conns)) != len(conns):
+                return _fail("schedule (%d,%d,%d): the same connection object is in the pool twice" % (w1, x1, w2))
             mark("both served")
         else:
             if out["W"][0] == "hang":
@@ -420,10 +433,12 @@ def JOBS(tier):
     jobs = []
     for maxsize in (1, 2):
         for block in (True, False):
-            for script in (0, 1, 2, 3):
+            for script in (0, 1, 2, 3, 4):
                 for other in ("close", "request", "stream", "request+close"):
                     if quick and other == "stream" and script not in (0, 2):
                         continue
+                    if script == 4 and other != "request":
+                        continue      # (a pooled connection whose response is still being read + close(): the caller gave it away)
                     if other == "request+close" and (script not in (0, 2) or (quick and maxsize == 2)):
                         continue
                     rc = other == "request+close"
@@ -439,7 +454,8 @@ EVIDENCE = {
                         "attempt then retry, streaming + release, 503 with exhausted budget} x every schedule (w1 <= 11, x1 <= 7, w2 <= 11) "
                         "of shared-state accesses: W runs w1 accesses, X runs x1, W runs w2, X finishes, W finishes (two preemptions of W, one of X)",
                "thorough": "w1, w2 <= 30, x1 <= 14 (covers every access of the longest script)"},
-    "outside": ["three or more running threads; more than two preemptions of the worker", "pre-emption inside queue.LifoQueue's own methods (the "
+    "outside": ["release_conn=True together with preload_content=False while another thread calls close() (the caller has given the "
+                "connection away before reading: close() then ends the read early)", "three or more running threads; more than two preemptions of the worker", "pre-emption inside queue.LifoQueue's own methods (the "
                 "standard library's lock protects them)", "pre-emption between byte-codes that do not touch pool.pool or the queue (they "
                 "commute with the other thread's steps)"],
     "stubs": ["QueueCls -> TickQueue (same LifoQueue, scheduling point before each operation; blocking waits become hand-overs)",
